@@ -1251,6 +1251,10 @@ func c12RunHandler(r *vu.Rng, plus bool, steps []*c12Step) {
 			nEps = 1 + (nEps % 3)
 			gen++
 			evs = append(evs, w.c12Apply(c12Slice("svc1", gen, nEps)))
+		case "endpoints-same":
+			// the slice is written again with the same endpoints (only its generation moves)
+			gen++
+			evs = append(evs, w.c12Apply(c12Slice("svc1", gen, nEps)))
 		case "unrelated":
 			gen++
 			evs = append(evs, w.c12Apply(&apiv1.Service{ObjectMeta: metav1.ObjectMeta{Name: "other", Namespace: "default",
@@ -1340,7 +1344,7 @@ func c12HandlerHuman(plus bool, steps []*c12Step) map[string]any {
 
 func c12GenPlan(r *vu.Rng, n int, plus bool) []*c12Step {
 	var steps []*c12Step
-	kinds := []string{"route", "route", "route3", "gateway", "gateway-delete", "endpoints", "endpoints", "endpoints", "unrelated", "unrelated", "empty"}
+	kinds := []string{"route", "route", "route3", "gateway", "gateway-delete", "endpoints", "endpoints", "endpoints-same", "endpoints-same", "unrelated", "unrelated", "empty"}
 	for i := 0; i < n; i++ {
 		st := &c12Step{}
 		switch {
